@@ -229,6 +229,57 @@ func c18Case(g *Gen, nops int) {
 	}
 }
 
+// reused verifier: one trie object created from the root hash only, asked to Prove many keys with
+// Flush / ClearCache / reload-from-hash in between; then altered proofs for other keys with every
+// element position mutated (position 0 = the root node, shared inner branches, the leaf)
+func c18CaseVerifier(g *Gen) {
+	keys := c17Keys(g, g.Pick(3, 5, 8, 12, 20, 40))
+	for _, k := range keys {
+		if g.Intn(6) != 0 {
+			g.Emit("set %s %s", hx(k), hx(c17Val(g)))
+		}
+	}
+	g.Emit("snap")
+	// another root for foreign proofs
+	for i := g.Intn(3) + 1; i > 0; i-- {
+		g.Emit("set %s %s", hx(c17PickKey(g, keys)), hx(c17Val(g)))
+	}
+	g.Emit("vnew")
+	mid := []string{"vflush", "vflush", "vflush", "vclear", "vreload"}
+	for round := g.Intn(3) + 1; round > 0; round-- {
+		// prime the verifier with genuine proofs
+		for i := g.Intn(4) + 1; i > 0; i-- {
+			g.Emit("vprove %s", hx(keys[g.Intn(len(keys))]))
+		}
+		for i := g.Intn(3) + 1; i > 0; i-- {
+			g.Emit(mid[g.Intn(len(mid))])
+		}
+		// altered proofs for (other) keys, every position
+		for i := g.Intn(6) + 3; i > 0; i-- {
+			k := keys[g.Intn(len(keys))]
+			pos := g.Pick(0, 0, 0, 1, 1, 2, 3, g.Intn(8))
+			switch g.Intn(8) {
+			case 0, 1, 2:
+				g.Emit("vpmut %s 0 %d %d %d -", hx(k), pos, g.Intn(600), g.Intn(255))
+			case 3:
+				x := g.Bytes(g.Pick(1, 20, 33, 60))
+				if g.Intn(2) == 0 {
+					x = []byte{0xc0}
+				}
+				g.Emit("vpmut %s 7 %d 0 0 %s", hx(k), pos, hx(x))
+			case 4:
+				g.Emit("vother 0 %s", hx(k))
+			case 5:
+				g.Emit("vpmut %s %d %d %d %d %s", hx(k), g.Pick(1, 3, 4, 5, 6), pos, g.Intn(600), g.Intn(255), hx(g.Bytes(g.Pick(1, 33))))
+			case 6:
+				g.Emit("vpmut %s 2 0 0 0 %s", hx(k), hx(g.Bytes(g.Pick(1, 33))))
+			default:
+				g.Emit("vprove %s", hx(c17PickKey(g, keys)))
+			}
+		}
+	}
+}
+
 func c18Gen(g *Gen) {
 	for i := 0; i < g.N; i++ {
 		g.Emit("reset")
@@ -236,6 +287,10 @@ func c18Gen(g *Gen) {
 			for j := g.Intn(8) + 1; j > 0; j-- {
 				c18Crafted(g)
 			}
+			continue
+		}
+		if g.Intn(3) == 0 {
+			c18CaseVerifier(g)
 			continue
 		}
 		c18Case(g, g.Pick(10, 20, 40, 80))
